@@ -401,6 +401,24 @@ def replay(path):
     walker = r.get("walker", "parallel")
     rg = vlib.build_rg()
     pool = Pool()
+    if "roots" in r:
+        # a search that started below the ignore files: same cwd / roots again
+        try:
+            rp = pool.repo()
+            rp.materialise(scn)
+            if r["cwd"]:
+                ob = rp.rg_visible(rg, scn["ci"], walker, cwd=r["cwd"], parent=True)
+            else:
+                ob = rp.rg_visible(rg, scn["ci"], walker, parent=True, paths=["--"] + r["roots"])
+        finally:
+            pool.close()
+        print(json.dumps({"scenario": describe(scn), "walker": walker, "cwd": r["cwd"], "roots": r["roots"],
+                          "expected_visible": sorted(r["expected_visible"]), "observed_now": ob, "why_then": r.get("why")}, indent=1))
+        if ob["files"] != sorted(r["expected_visible"]):
+            print("VIOLATION property=%s replay=%s" % (rec["property"], path))
+            return 1
+        print("replay: property holds on this scenario now")
+        return 0
     try:
         o = observe(pool, rg, scn, want_git=True, walkers=(walker,))
     finally:
